@@ -137,3 +137,39 @@ def join(sep, items_cls, first=None):
     def step(acc, item, label='item'):
         return value([('hole', acc, 'sum', 'chain so far'), ('lit', sep), ('hole', item, items_cls, label)])
     return step
+
+
+def is_atomic(parts):
+    """the text is an operand in EVERY context: checked in the tightest context on both sides (right operand of ** and left operand of **)"""
+    ctx = [('lit', 'q0**')] + list(parts) + [('lit', '**q1')]
+    par = [('lit', 'q0**(')] + list(parts) + [('lit', ')**q1')]
+    holes = [p for p in flatten(parts) if p[0] == 'hole']
+    for combo in itertools.product(*[REPS[h[2]] for h in holes]):
+        frag = lambda k, p: combo[k].format(x=f'x{k}', y=f'y{k}', z=f'z{k}')
+        a, b = _render(flatten(ctx), frag), _render(flatten(par), frag)
+        try: same = ast.dump(_parse(a)) == ast.dump(_parse(b))
+        except TemplateError: same = False
+        if not same:
+            return False, {'fragments': {str(h[3]): combo[k].format(x='x', y='y', z='z') for k, h in enumerate(holes)}, 'in_context': a, 'intended': b}
+    return True, None
+
+
+def chain_obligations(parts, fresh, base_spec, step_spec):
+    """A text  prefix + item_1 + sep + item_2 + ... + sep + item_k  (k >= 1, chain last) denotes, by induction on k (Lemma L-chain: the text for
+    k items is the text for k-1 items followed by sep + item_k),  V_1 = base_spec(a_1),  V_k = step_spec(V_{k-1}, a_k)  provided
+      base: the text with ONE item reads as intended and has the value base_spec(a_1)
+      step: '{any expression}' + sep + item reads as intended and has the value step_spec(acc, a)
+    -> list of (name, z3 goal, witness)"""
+    parts = list(parts)
+    ch = [i for i, p in enumerate(parts) if p[0] == 'chain']
+    if len(ch) != 1 or ch[0] != len(parts) - 1: raise TemplateError('a repeated part that is not the last part of the text')
+    _, sep, item = parts[-1]
+    a1, acc, a = fresh('item1'), fresh('chain_value'), fresh('item')
+    out = []
+    t, safe, wit = value(parts[:-1] + item(a1))
+    out.append(('text.chain.base.reads-as-intended', z3.BoolVal(safe), wit))
+    out.append(('text.chain.base.value', t == base_spec(a1), {'text': 'one item', 'items': 1}))
+    t, safe, wit = value([('hole', acc, 'any', 'the text so far')] + [('lit', sep)] + item(a))
+    out.append(('text.chain.step.reads-as-intended', z3.BoolVal(safe), wit))
+    out.append(('text.chain.step.value', t == step_spec(acc, a), {'text': 'text so far' + sep + 'item', 'items': 2}))
+    return out
